@@ -70,6 +70,7 @@ def run(res):
     failing += sum_bad
     if not sum_bad:
         res.discharged.append(name3)
+    failing += slice_views(res)
     semprops.finish(res, "C05", cases, bad, sem_dis, na, nc, failing, texts,
                     "the shared semantic corpus (see C01): siblings share types and differ in content (Vec<i32>, Vec<String>, repeated "
                     "struct types, maps of equal value types); Debug forms include quotes, nested structs, tuples, vectors, maps; the "
@@ -78,9 +79,86 @@ def run(res):
                     [semprops.describe(c) for c in cases if c["real"]["pushes"]][:2])
 
 
+SLICE_VIEW_DECLS = r"""
+#[derive(Debug, Clone)] struct Stack(Vec<u8>);
+impl Stack { fn as_slice(&self) -> &[u8] { &self.0 } }
+#[derive(Debug, Clone)] struct Ring { buf: Vec<i32>, head: usize }
+impl Ring { fn as_slice(&self) -> &[i32] { &self.buf[self.head..] } }
+#[derive(Debug, Clone)] struct Holder { items: Vec<i32>, st: Stack, arr: [i32; 3], ring: Ring, opt: Option<Stack>, names: Vec<String> }
+fn holder() -> Holder { Holder { items: vec![1, 2, 3], st: Stack(vec![1, 2, 3]), arr: [4, 5, 6], ring: Ring { buf: vec![9, 8, 7, 6], head: 2 },
+                                 opt: Some(Stack(vec![5])), names: vec!["a\"b".to_string(), "c".to_string()] } }
+"""
+
+# (value expression whose Debug form is the expected text, statements before, asserted expression, pattern): every pattern is a slice
+# pattern that fails on SHAPE, on a value that is not a Vec: the slice view the expansion matches on prints differently from the value
+SLICE_VIEW_CASES = [
+    ("h.items.iter()", "let h = holder();", "h", "Holder { items.iter(): [1, 2], .. }"),
+    ("h.items.iter()", "let h = holder();", "h", "Holder { items.iter(): [1, 2, 3, 4, ..], .. }"),
+    ("it", "let it = vec![7u8, 8, 9].into_iter();", "it", "[7, 8]"),
+    ("h.st", "let h = holder();", "h", "Holder { st: [1, 2], .. }"),
+    ("h.st", "let h = holder();", "h", "_ { st: [1, 2, 3, 4, ..], .. }"),
+    ("h.ring", "let h = holder();", "h", "Holder { ring: [7], .. }"),
+    ("h.ring", "let h = holder();", "h.ring", "[]"),
+    ("h.ring.clone()", "let h = holder();", "h", "Holder { ring.clone(): [7, 6, 5], .. }"),
+    ("h.arr", "let h = holder();", "h", "Holder { arr: [4, 5], .. }"),
+    ("h.items", "let h = holder();", "h", "Holder { items: [1, .., 9, 9, 9], .. }"),
+    ("h.names", "let h = holder();", "h", "Holder { names: [\"a\\\"b\"], .. }"),
+    ("h.opt.as_ref().unwrap()", "let h = holder();", "h", "Holder { opt: Some([5, 6]), .. }"),
+    ("t.1", "let t = (1, Stack(vec![2, 3]));", "t", "(1, [2])"),
+    ("m[\"k\"]", "let m: HashMap<String, Stack> = [(\"k\".to_string(), Stack(vec![1]))].into_iter().collect();", "m", "#{ \"k\": [], .. }"),
+    ("vs[1]", "let vs = vec![Stack(vec![1]), Stack(vec![2, 2])];", "vs", "[[1], [2]]"),
+]
+
+
+def slice_views(res):
+    """A slice pattern that fails on shape must show the Debug form of the value at its path, not of the `as_slice()` view the
+    expansion matches on: the two differ for every slice-like type other than Vec and arrays (slice::Iter, vec::IntoIter, user
+    types with an as_slice() accessor).  Compiled with the real macro; the expected text is computed in the program by plain access."""
+    import e2e
+    name = "direct:slice shape failures show the value, not its slice view (non-Vec slice-like types)"
+    res.obligations.append(name)
+    body = []
+    for i, (dbg, pre, val, pat) in enumerate(SLICE_VIEW_CASES):
+        body.append("    { %s println!(\"expect %d {}\", hexs(&format!(\"{:?}\", %s))); run_case(\"%d\", std::panic::AssertUnwindSafe(|| { assert_struct!(%s, %s); })); }"
+                    % (pre, i, dbg, i, val, pat))
+    prog = e2e.PRELUDE + SLICE_VIEW_DECLS + "\nfn main() { std::panic::set_hook(Box::new(|_| {}));\n" + "\n".join(body) + "\n}\n"
+    o = e2e.compile_many([prog], run=True, tag="c05sv")[0]
+    e2e.cleanup("c05sv")
+    if not o["compiled"]:
+        res.violation("no-failing-input-found", "the slice-view programs of C05 no longer compile against /repo: " + o["stderr"][-1200:], {"obligation": name})
+        return 0
+    got = e2e.parse_case_lines(o["stdout"])
+    expect = {}
+    for l in o["stdout"].splitlines():
+        if l.startswith("expect "):
+            _, i, h = l.split(" ")
+            expect[i] = unhx(h).decode("utf-8", "replace")
+    bad = 0
+    seen = 0
+    for i, (dbg, pre, val, pat) in enumerate(SLICE_VIEW_CASES):
+        c = got.get(str(i))
+        if c is None or c["verdict"] != "fail" or len(c["pushes"]) != 1:
+            raise vlib.CheckError("slice-view case %d did not fail with exactly one entry: %r" % (i, c))
+        seen += 1
+        if c["pushes"][0]["actual"] != expect[str(i)]:
+            bad += 1
+            if bad <= 2:
+                res.violation("failing-input", "`%s` on `%s`: the entry shows %r but the value at that path prints as %r"
+                              % (pat, val, c["pushes"][0]["actual"], expect[str(i)]),
+                              {"slice_view_case": i, "setup": pre, "value": val, "pattern": pat, "expected_text_of": dbg})
+    res.streams["slice-views"] = {"cases": seen, "wrong_texts": bad}
+    if not bad:
+        res.discharged.append(name)
+    return bad
+
+
 def replay(res, path):
     import json
     v = json.load(open(path))
+    if "slice_view_case" in v:
+        n = slice_views(res)
+        print("slice-view cases re-run:", "violation" if n else "property holds on these inputs")
+        return 1 if n else 0
     if "case_line" in v and "n_elements" in v:
         ok, out = vlib.build_harness("rt")
         if not ok:
